@@ -16,7 +16,7 @@ RULE = ('fault mode {exit 1 silent / with error text, exit 0 empty, exit 2 usage
         'binary not startable} x site {response verify, assertion verify, both (SP requiring both, the response only, nothing), request verify, metadata verify, response sign, assertion sign, request sign, encrypt, decrypt first key, '
         'decrypt second key} x position {first, second, every, every-from-the-second invocation of that command in the operation} x document {valid, signature-corrupted}; enumerated in full, real subprocesses. '
         'Non-trivial = the wrapper log shows the fault hit an invocation; distinct = distinct table row.')
-ASSUMPTIONS = ['faults that print a line that is exactly OK are outside the statement ("without reporting success") and are not in the plan',
+ASSUMPTIONS = ['faults that print a line that is exactly OK *and* exit with status 0 are outside the statement ("without reporting success") and are not in the plan; an error exit status is a failure whatever the diagnostics contain',
                'a valid document may be accepted when only some of several verifications of the same signature are faulted (a later fault-free run verified it); judged rows: '
                'corrupted documents under any plan, valid documents with every invocation faulted',
                'xmlsec1 stand-in run as a real process through the fault-injecting wrapper; frozen clock']
@@ -25,7 +25,7 @@ NOW = 1700000000
 IDP = 'https://idp.verif.example/idp'
 SP = 'https://sp.verif.example/sp'
 ACS = 'https://sp.verif.example/acs/post'
-VERIFY_MODES = ['ok-between-cr', 'ok-between-vt', 'ok-between-ff', 'ok-between-rs', 'ok-between-nel', 'ok-between-ls', 'garbled-invalid-utf8-around-ok', 'garbled-invalid-utf8-inside-ok', 'garbled-latin1-nbsp-ok', 'garbled-utf16-ok', 'garbled-nul-ok', 'garbled-invalid-line-then-ok-fragment', 'exit1-silent', 'exit1-error-text', 'exit0-empty', 'exit2-usage', 'truncated-O', 'ok-same-line-junk', 'fail-line', 'fail-exit0', 'garbled', 'not-ok', 'xOKx', 'ok-lowercase',
+VERIFY_MODES = ['error-exit1-echoing-ok-line', 'error-exit2-echoing-ok-line', 'ok-between-cr', 'ok-between-vt', 'ok-between-ff', 'ok-between-rs', 'ok-between-nel', 'ok-between-ls', 'garbled-invalid-utf8-around-ok', 'garbled-invalid-utf8-inside-ok', 'garbled-latin1-nbsp-ok', 'garbled-utf16-ok', 'garbled-nul-ok', 'garbled-invalid-line-then-ok-fragment', 'exit1-silent', 'exit1-error-text', 'exit0-empty', 'exit2-usage', 'truncated-O', 'ok-same-line-junk', 'fail-line', 'fail-exit0', 'garbled', 'not-ok', 'xOKx', 'ok-lowercase',
                 'sigkill', 'sigsegv', 'sigterm', 'sigkill-after', 'sigterm-after-partial-ok', 'not-startable']
 OUTPUT_MODES = ['exit1-silent', 'exit1-error-text', 'exit0-empty', 'exit2-usage', 'garbled', 'sigkill', 'sigsegv', 'sigterm', 'sigkill-after', 'no-output-file', 'empty-output-exit1', 'not-startable']
 DECRYPT_MODES = OUTPUT_MODES + ['partial-output']
